@@ -122,7 +122,7 @@ var boundsExceptions = []struct {
 	{"ucfg.parseVarExp", "stack", "", "", 4, "the parser's state stack is never empty when a token arrives: the lexer only emits a close/separator/string token after the corresponding open (varcount bookkeeping) and tokClose pops at most what tokOpen pushed; this is a protocol between two goroutines over a channel and not locally provable (the protocol endpoints are covered by R07e)"},
 	{"ucfg.parseVarExp", "pieces", "", "", 4, "st.st is only ever assigned the constants stLeft (0) and stRight (1) and indexes a [2]-array"},
 	{"ucfg.mergeConfigMergeArr", "array()", "index", "", 1, "to.fields.array() is re-read inside the loop after the recursive merge of element i; the loop bound l was taken from the same array and the iterations only replace elements in place (setAt with i < l) or merge below them, so its length cannot shrink; proving this needs reasoning about what the recursive merge may write"},
-	{"ucfg.lexer$1", "content", "", "off", 2, "loop invariant off <= len(content) of the lexer: off is reset to 0 whenever content is re-sliced and only advanced to idx+1 / idx+2 after the tests len(content) <= off; needs an inductive invariant over two captured variables that the prover does not infer. Reads content[off] are NOT covered by this exception: each has a local end-of-input test that is proved"},
+	{"ucfg.lexer$1", "content", "", "off", 1, "(one site since the prover proves joins alternative by alternative: the final re-slice content[off:]) loop invariant off <= len(content) of the lexer: off is reset to 0 whenever content is re-sliced and only advanced to idx+1 / idx+2 after the tests len(content) <= off; needs an inductive invariant over two captured variables that the prover does not infer. Reads content[off] are NOT covered by this exception: each has a local end-of-input test that is proved"},
 	{"(diff.Type).String", "", "", "", 1, "dt is one of the three constants Remove/Add/Keep of the enum; a Type outside the enum can only be made by the caller"},
 	{"ucfg.reflectUnpackWithConfig", "Call()", "", "", 1, "reflect.Value.Call on a method whose signature was checked by implementsUnpacker to have exactly one result"},
 }
